@@ -208,11 +208,39 @@ func (v *VerifSM) MaxStreams(uni bool, n int64) {
 	v.m.HandleMaxStreamsFrame(&wire.MaxStreamsFrame{Type: t, MaxStreamNum: protocol.StreamNum(n)})
 }
 
-func (v *VerifSM) TransportParams(nb, nu int64) {
+func (v *VerifSM) TransportParams(nb, nu int64, resetStreamAt bool) {
 	v.m.HandleTransportParameters(&wire.TransportParameters{
 		MaxBidiStreamNum: protocol.StreamNum(nb), MaxUniStreamNum: protocol.StreamNum(nu),
 		InitialMaxStreamDataBidiRemote: 1 << 16, InitialMaxStreamDataUni: 1 << 16,
+		EnableResetStreamAt: resetStreamAt,
 	})
+}
+
+// ResetStreamAtSnapshot: the map's supportsResetStreamAt (given to new streams) and the IDs of
+// the open outgoing streams whose send side has the extension switched on, ascending.
+func (v *VerifSM) ResetStreamAtSnapshot() (bool, []int64) {
+	var ids []int64
+	ob, ou := v.m.outgoingBidiStreams, v.m.outgoingUniStreams
+	ob.mutex.RLock()
+	for id, str := range ob.streams {
+		str.sendStr.mutex.Lock()
+		if str.sendStr.supportsResetStreamAt {
+			ids = append(ids, int64(id))
+		}
+		str.sendStr.mutex.Unlock()
+	}
+	ob.mutex.RUnlock()
+	ou.mutex.RLock()
+	for id, str := range ou.streams {
+		str.mutex.Lock()
+		if str.supportsResetStreamAt {
+			ids = append(ids, int64(id))
+		}
+		str.mutex.Unlock()
+	}
+	ou.mutex.RUnlock()
+	sort.Slice(ids, func(i, j int) bool { return ids[i] < ids[j] })
+	return v.m.supportsResetStreamAt, ids
 }
 
 // Recv / Send are the dispatch functions every receive-side / send-side frame handler
@@ -355,4 +383,50 @@ func VerifSMConsts() [][2]any {
 		{"SM_MaxStreamCount", int64(protocol.MaxStreamCount)},
 		{"SM_MaxStreamID", int64(protocol.MaxStreamID)},
 	}
+}
+
+// VerifSMResetStreamAtProbe replays what a 0-RTT client does: restored transport parameters,
+// a stream opened and written to before the handshake completes, then the server's real
+// transport parameters, which carry reset_stream_at iff peerEnables. The application marks the
+// written data as reliable and cancels the stream. Returns the ReliableSize of the RESET_STREAM
+// frame the stream queues (> 0 means it goes out as RESET_STREAM_AT), or -1 if no frame was queued.
+func VerifSMResetStreamAtProbe(uni, restoredEnables, peerEnables bool) int64 {
+	v := NewVerifSM(true, 10, 10)
+	tp := func(enable bool) *wire.TransportParameters {
+		return &wire.TransportParameters{
+			MaxBidiStreamNum: 3, MaxUniStreamNum: 3,
+			InitialMaxStreamDataBidiRemote: 1 << 16, InitialMaxStreamDataUni: 1 << 16, InitialMaxData: 1 << 20,
+			EnableResetStreamAt: enable,
+		}
+	}
+	v.m.HandleTransportParameters(tp(restoredEnables)) // restoreTransportParameters
+	var ss *SendStream
+	if uni {
+		s, err := v.m.OpenUniStream()
+		if err != nil {
+			return -2
+		}
+		ss = s
+	} else {
+		s, err := v.m.OpenStream()
+		if err != nil {
+			return -2
+		}
+		ss = s.sendStr
+	}
+	if _, err := ss.Write([]byte("0-RTT data")); err != nil {
+		return -3
+	}
+	v.m.HandleTransportParameters(tp(peerEnables)) // applyTransportParameters after the handshake
+	ss.SetReliableBoundary()
+	ss.CancelWrite(7)
+	f, ok, _ := ss.getControlFrame(0)
+	if !ok {
+		return -1
+	}
+	rs, isReset := f.Frame.(*wire.ResetStreamFrame)
+	if !isReset {
+		return -4
+	}
+	return int64(rs.ReliableSize)
 }
